@@ -93,6 +93,9 @@ def generate(ctx):
         yield {"kind": "frame", "p": pts, "cls": cls}
 
 
+_AXBUF = np.zeros(3)
+
+
 def evaluate(ctx, case):
     from gaddlemaps._auxilliary import rotation_matrix, calcule_base
     if case["kind"] == "rot":
@@ -102,6 +105,18 @@ def evaluate(ctx, case):
         ctx.count("rot")
         ax_ro = axis.copy()
         ax_ro.flags.writeable = False
+        buffered = int(abs(th) * 1e6) % 2 == 0
+        if buffered:
+            # the caller keeps ONE axis array and refills it in place between calls (what a loop that draws
+            # a new axis into a preallocated buffer does).  A decoy direction goes through the function first;
+            # the matrix for the refilled buffer must be the matrix of its CURRENT contents (seed C17-3: a
+            # "same axis as last time" cache that compares the array with a stored reference to itself).
+            ctx.count("rot:axis-buffer-refilled-in-place")
+            _AXBUF[:] = np.array([axis[1] + 1.0, -axis[2] - 0.5, axis[0] + 2.0])
+            with np.errstate(all="ignore"):
+                rotation_matrix(_AXBUF, 0.3)
+            _AXBUF[:] = axis
+            ax_ro = _AXBUF
         with np.errstate(all="ignore"):
             R = rotation_matrix(ax_ro, th)
             Rn = rotation_matrix(ax_ro, -th)
@@ -110,6 +125,8 @@ def evaluate(ctx, case):
             Rl = rotation_matrix(ax_ro * lam, th)
         n = axis / np.linalg.norm(axis)
         fails = []
+        if buffered and not np.array_equal(_AXBUF, axis):
+            fails.append("input-modified")
         if not np.isfinite(R).all():
             fails.append("non-finite")
         else:
